@@ -1,0 +1,21 @@
+//go:build verif
+
+package gelf
+
+import "github.com/ozontech/file.d/pipeline"
+
+// VerifOut calls the batch output function the batcher workers call (verification only).
+func (p *Plugin) VerifOut(workerData *pipeline.WorkerData, batch *pipeline.Batch) error {
+	return p.out(workerData, batch)
+}
+
+// VerifFormat applies the GELF field conversion to the event in place and returns its encoding.
+func (p *Plugin) VerifFormat(event *pipeline.Event) []byte {
+	p.formatEvent(nil, event)
+	return event.Root.Encode(nil)
+}
+
+// VerifReconnect runs the worker maintenance: closes the worker's connection.
+func (p *Plugin) VerifReconnect(workerData *pipeline.WorkerData) {
+	p.maintenance(workerData)
+}
